@@ -16,6 +16,12 @@ for p in props:
         if m.get("not_applicable"):
             na.append({"property_id": pid, "reason": m["not_applicable"]})
             continue
+        import re as _re
+        deps = sorted(set(_re.findall(r'dependency,?\(?\s*"(C\d\d)"', open(plugin).read())))
+        if deps:
+            m["level_note"] = m["level_note"].rstrip() + (" Assumptions about mechanisms that are the subject of sibling properties are "
+                "discharged by running those checks on the same tree and tier (ctx.dependency; DESIGN §12.3): "
+                + ", ".join(deps) + " — a violation found there is reported as a violation of this property.")
         checks.append({
             "property_id": pid,
             "quick_cmd": f"./check {pid} --tier quick",
